@@ -864,8 +864,8 @@ def isPtrTy : GTy → Bool
 
 mutual
 /-- an expression whose evaluation can neither fail nor touch the world, judged syntactically:
-    literals, variables, `-`, `!`, the non-dividing binary operators and composite literals of
-    such.  With `allowField` also `e.f` where the annotated type of `e` is not a pointer — sound
+    literals, variables, `-`, `!`, the non-dividing binary operators and struct / array literals
+    of such (a slice literal allocates its backing array in `Go.Sem`'s heap).  With `allowField` also `e.f` where the annotated type of `e` is not a pointer — sound
     only as far as the annotations are (a struct value is never nil); `Go.Sem` is untyped, so this
     case is validated, not proved. -/
 def inertSyn (allowField : Bool) : GExpr → Bool
@@ -875,7 +875,7 @@ def inertSyn (allowField : Bool) : GExpr → Bool
   | .bin op _ l r => (match op with | .div => false | _ => inertSyn allowField l && inertSyn allowField r)
   | .field _ _ o => allowField && !isPtrTy (staticTy o) && inertSyn allowField o
   | .slit _ fs => inertSynFields allowField fs
-  | .alit _ es => inertSynList allowField es
+  | .alit t es => (match t with | .slice _ => false | _ => true) && inertSynList allowField es
   | _ => false
 def inertSynList (allowField : Bool) : List GExpr → Bool
   | [] => true
